@@ -11,6 +11,7 @@ import (
 	"verif/harness/chain"
 	"verif/harness/internal/common"
 
+	data "github.com/regen-network/regen-ledger/x/data/v3"
 	base "github.com/regen-network/regen-ledger/x/ecocredit/v3/base/types/v1"
 )
 
@@ -30,6 +31,10 @@ type Scenario struct {
 	// Extra maps additional account indices (>= 900) to addresses that are not in the account book
 	// (used as filter arguments that match nothing).
 	Extra map[int]sdk.AccAddress
+	// data module: the content hashes the history used, one that it never used, and the data tables
+	Hashes    []*data.ContentHash
+	FreshHash *data.ContentHash
+	Data      *DataView
 }
 
 const numUsers = 8   // users 0..5 are active, 6 and 7 never own anything
@@ -458,6 +463,9 @@ func Build(seed uint64, big bool) *Scenario {
 		do(a.MsgCancelSellOrder(orderSeller[i], orderIDs[i]))
 	}
 
+	// ---- data module
+	buildData(sc, r, do)
+
 	// ---- where the queries look: open block, committed block, or a later block in which some
 	// orders have expired
 	switch r.Intn(4) {
@@ -472,6 +480,7 @@ func Build(seed uint64, big bool) *Scenario {
 	}
 	sc.State = a.Snapshot()
 	sc.View = NewView(sc.State)
+	sc.Data = NewDataView(sc.State)
 	// an address that is not an account of the chain
 	sc.Extra[900] = sdk.AccAddress(r.Bytes(20))
 	return sc
